@@ -553,7 +553,7 @@ impl Property for C09 {
         "C09"
     }
     fn rule(&self) -> &'static str {
-        "Tiny programs, one declaration under test each. Table: 8 declaration forms (plain, with initialiser, const, input, output, def parameter, for-loop variable, cast target) x 10 base types x 15 designator forms (none; literal in 4 radices and with underscore; const identifier declared as int / int[32] / int[64] / int[128] / uint / via an expression / as float; non-const identifier; undeclared identifier) x 19 widths across [1, 2^33] plus 0 and negative values x 9 scope kinds (quick: a covering sample of the product, every form/base/designator-form/width class pair at least once; thorough: the full product). Oracle: SymbolTable[id].symbol_type() equals the Type value the harness constructs from the declaration (base, width or none, const, register lengths); a width that does not fit u32, is negative or is not a constant integer must produce a designator diagnostic and must never be recorded silently as another number. Gate signatures 0-4 parameters x 1-4 qubits with and without stdgates.inc: Type::Gate arity, parameter/qubit types, and SymbolTable::gates() equal to exactly the user + standard-library gates with their arities. Random def signatures with 0-4 typed/qubit parameters and return types: SubroutineDef{num_params, return_type}, parameter types, DefStmt::return_type. Non-trivial: all. Distinct: source text."
+        "Tiny programs, one declaration under test each. Table: 8 declaration forms (plain, with initialiser, const, input, output, def parameter, for-loop variable, cast target) x 10 base types x 15 designator forms (none; literal in 4 radices and with underscore; const identifier declared as int / int[32] / int[64] / int[128] / uint / via an expression / as float; non-const identifier; undeclared identifier) x 19 widths across [1, 2^33] plus 0 and negative values x 9 scope kinds (the full product in both tiers). Oracle: SymbolTable[id].symbol_type() equals the Type value the harness constructs from the declaration (base, width or none, const, register lengths); a width that does not fit u32, is negative or is not a constant integer must produce a designator diagnostic and must never be recorded silently as another number. Gate signatures 0-4 parameters x 1-4 qubits with and without stdgates.inc: Type::Gate arity, parameter/qubit types, and SymbolTable::gates() equal to exactly the user + standard-library gates with their arities. Random def signatures with 0-4 typed/qubit parameters and return types: SubroutineDef{num_params, return_type}, parameter types, DefStmt::return_type. Non-trivial: all. Distinct: source text."
     }
     fn streams(&self, tier: Tier, seed: u64) -> Vec<Stream> {
         let (nf, nc, nb, nw, nv) = (FORMS.len() as u64, CONTEXTS.len() as u64, BASES.len() as u64, WFORMS.len() as u64, WIDTHS.len() as u64);
@@ -567,20 +567,9 @@ impl Property for C09 {
             format!("D|{}|{}|{}|{}|{}", FORMS[f as usize], CONTEXTS[cx as usize], BASES[b as usize], WFORMS[wf as usize], WIDTHS[w as usize])
         };
         let mut v = Vec::new();
-        if tier == Tier::Thorough {
-            v.push(Stream::new("declaration-table-full-product", full, true, spec));
-        } else {
-            // covering sample: global context full over (form, base, wform, width); other contexts sampled
-            let glob = nf * nb * nw * nv;
-            v.push(Stream::new("declaration-table-global-scope", glob, true, move |i| {
-                let f = i % nf;
-                let b = (i / nf) % nb;
-                let wf = (i / nf / nb) % nw;
-                let w = (i / nf / nb / nw) % nv;
-                format!("D|{}|global|{}|{}|{}", FORMS[f as usize], BASES[b as usize], WFORMS[wf as usize], WIDTHS[w as usize])
-            }));
-            v.push(Stream::new("declaration-table-sampled-scopes", 20_000, false, move |i| spec(mix(&[seed, 0xC09, i]) % full)));
-        }
+        // the whole table (205 200 tiny programs, about a second) in both tiers
+        let _ = (tier, seed);
+        v.push(Stream::new("declaration-table-full-product", full, true, spec));
         v.push(Stream::new("gate-signatures", 5 * 4 * 2, true, |i| format!("G|{}|{}|{}", i % 5, 1 + (i / 5) % 4, i / 20)));
         v.push(Stream::new("user-gate-named-like-a-library-gate", STDGATES.len() as u64 * 2, true, |i| {
             let n = STDGATES.len() as u64;
